@@ -123,6 +123,14 @@ def main():
                 violations.append(rec)
             else:
                 inconclusive.append(f"{short(rec['harness'])}: counterexample for {rec['keys']} did not reproduce natively ({rec.get('why','')})")
+    # violations established by the pre-stage (concrete native comparisons on the real code, e.g. block composition)
+    for pv in ctx.get("pre_violations", []):
+        if spec.get("key_prefix") and not pv["key"].startswith(spec["key_prefix"] + "."):
+            continue
+        hsh = hashlib.sha256(pv["key"].encode()).hexdigest()[:8]
+        path = os.path.join(os.environ.get("VERIF_REPLAY_DIR", os.path.join(VERIF, "replays")), f"{pid}-pre-{hsh}.json")
+        R.write_json(path, {"property": pid, "harness": "pre-stage", "keys": [pv["key"]], "mode": "native", "what": pv["what"], "detail": pv["detail"], "reproduced": True})
+        violations.append({"path": path, "keys": [pv["key"]], "harness": "pre::stage"})
     # report
     seen = set()
     for h, k, kf in known_hits:
@@ -305,8 +313,16 @@ def locate_harness_file(mdir, h):
 def do_replay(pid, spec, path, keep):
     rec = json.load(open(path))
     mdir, _ = mirror_mod.make_mirror(keep=keep)
+    rctx = {"tier": "quick", "seed": 0, "notes": [], "pre": {}}
     if spec.get("pre"):
-        spec["pre"](mdir, {"tier": "quick", "seed": 0, "notes": [], "pre": {}})
+        spec["pre"](mdir, rctx)
+    if rec.get("mode") == "native":
+        now = [pv["key"] for pv in rctx.get("pre_violations", [])]
+        print(f"replay (native pre-stage comparison): failing now: {now}")
+        if any(k in now for k in rec["keys"]):
+            print(f"VIOLATION property={pid} replay={path}")
+            return 1
+        return 0
     g = R.Group("replay", [c for c in rec["group"]["cfgs"]], rec["group"]["features"])
     tests = rec.get("tests", [])
     if rec.get("mode") == "solver-only" or not tests:
